@@ -135,6 +135,51 @@ func c19(args []string) error {
 		}
 		runSeq(ids)
 	}
+	// 1b. a bit-field rebuilt from a prefix of a larger buffer whose tail holds other data (the bytes of a decoded message are a
+	// window into a bigger buffer), then grown; and a value copy of a bit-field grown after another copy of it was grown
+	for i := 0; i < *nrand/2; i++ {
+		l := 3 + rng.Intn(10)
+		buf := make([]byte, l)
+		for j := range buf {
+			buf[j] = byte(1 + rng.Intn(255))
+		}
+		k := rng.Intn(l)
+		bf := crypto.BitfieldFromBytes(buf[:k])
+		o.emit(obj{"op": "new"})
+		line := obj{"op": "frombytes", "in": bytesToInts(buf[:k]), "bytes": bytesToInts(bf.Bytes())}
+		c19Obs(line, &bf, c19Probe(rng, []int{1, 8 * l}))
+		o.emit(line)
+		var added []int
+		for j := 0; j < 1+rng.Intn(3); j++ {
+			id := 8*k + 1 + rng.Intn(8*(l-k)+8)
+			bf.Add(hotstuff.ID(id))
+			added = append(added, id)
+			line := obj{"op": "add", "id": id, "bytes": bytesToInts(bf.Bytes())}
+			c19Obs(line, &bf, c19Probe(rng, append([]int{1, 8 * l}, added...)))
+			o.emit(line)
+		}
+	}
+	for i := 0; i < *nrand/2; i++ {
+		o.emit(obj{"op": "new"})
+		var base crypto.Bitfield
+		var ids []int
+		for j := 0; j < 1+rng.Intn(3); j++ {
+			id := 1 + rng.Intn(8)
+			base.Add(hotstuff.ID(id))
+			ids = append(ids, id)
+			line := obj{"op": "add", "id": id, "bytes": bytesToInts(base.Bytes())}
+			c19Obs(line, &base, c19Probe(rng, ids))
+			o.emit(line)
+		}
+		c1, c2 := base, base
+		c1.Add(hotstuff.ID(9 + rng.Intn(40))) // (not logged: it is another set)
+		id := 9 + rng.Intn(40)
+		c2.Add(hotstuff.ID(id))
+		ids = append(ids, id)
+		line := obj{"op": "add", "id": id, "bytes": bytesToInts(c2.Bytes())}
+		c19Obs(line, &c2, c19Probe(rng, append(ids, seqInts(9, 48)...)))
+		o.emit(line)
+	}
 	// 2. reconstruction from arbitrary byte strings
 	fromBytes := func(b []byte) {
 		bf := crypto.BitfieldFromBytes(append([]byte{}, b...))
